@@ -231,6 +231,46 @@ def rule_sstr_index(c, prog, R="C01.sstr"):
         return n.get("k") in ("Field", "Path") and rx.match(peel(n.get("ty") or n.get("aty"))) is not None and (n.get("k") == "Field" or n.get("res") == "local")
     fns = [f for f in prog.lib_fns() if f.body is not None and f.crate == "rbx_binary" and "::serializer::" in f.path]
     READ_ONLY = {"iter", "len", "is_empty", "clone", "contains", "get", "first", "last", "as_slice", "to_vec", "into_iter", "binary_search", "binary_search_by_key", "starts_with", "ends_with", "deref"}
+    REORDERING = {"sort", "sort_by", "sort_by_key", "sort_by_cached_key", "sort_unstable", "sort_unstable_by", "sort_unstable_by_key", "reverse", "swap", "swap_remove", "remove",
+                  "retain", "retain_mut", "dedup", "dedup_by", "dedup_by_key", "drain", "truncate", "rotate_left", "rotate_right", "rev"}
+    # the loop that writes the strings out (its body takes SharedString::data): it walks the list the ids index, in the
+    # list's own order — not a copy that was sorted, reversed or thinned on the way
+    n_w = 0
+    for f in fns:
+        lets = {st["pat"]["lid"]: st["init"] for st in core.walk_lets(f.body) if st["pat"].get("k") == "Binding" and st.get("init") is not None}
+        for n in core.walk_fn(f):
+            if n.get("k") == "DropTemps":
+                continue
+            fl = core.as_for(n)
+            if fl is None or not any(y.get("k") == "MethodCall" and y["m"] == "data" and "shared_string::SharedString" in (core.strip(y["recv"]).get("ty") or "") for y in core.walk(fl[2])):
+                continue
+            if not any(y.get("k") == "MethodCall" and y["m"].startswith("write_") for y in core.walk(fl[2])):
+                continue
+            n_w += 1
+            inst = f"sstr-list:written in list order by {f.path.rsplit('::', 1)[-1]}"
+            it = fl[1]
+            how = [y["m"] for y in core.walk(it) if y.get("k") == "MethodCall" and y["m"] in REORDERING]
+            roots = [y for y in core.walk(it) if y.get("k") == "Path" and y.get("res") == "local" and y.get("lid") in lets and not is_field_of_self(y, VEC)]
+            for r_ in roots:
+                init = lets[r_["lid"]]
+                if any(is_field_of_self(y, VEC) for y in core.walk(init)):
+                    how += [y["m"] for y in core.walk(init) if y.get("k") == "MethodCall" and y["m"] in REORDERING]
+                    how += [y["m"] for y in core.walk_fn(f) if y.get("k") == "MethodCall" and y["m"] in REORDERING and core.place_root_lid(y["recv"])[0] == r_["lid"]]
+            if how and roots:
+                # unless the ids are taken from that very copy (an enumerate() pass over the same local storing into the
+                # id map): then copy order is id order
+                rl = {r_["lid"] for r_ in roots}
+                for n2 in core.walk_fn(f):
+                    fl2 = core.as_for(n2) if n2.get("k") != "DropTemps" else None
+                    if fl2 is not None and any(y.get("k") == "Path" and y.get("lid") in rl for y in core.walk(fl2[1])) and any(y.get("k") == "MethodCall" and y["m"] == "enumerate" for y in core.walk(fl2[1])) \
+                            and any(y.get("k") == "MethodCall" and y["m"] == "insert" and is_field_of_self(y["recv"], IDS) for y in core.walk(fl2[2])):
+                        how = []
+            if how:
+                c.violation(R, f"written-reordered|{how[0]}|{f.path.rsplit('::', 1)[-1]}", f"{f.path} writes the SharedStrings from a copy of the list that went through `{how[0]}`: the SSTR chunk is then in another order than the one the ids stored in PROP chunks were taken from, and instances come back holding another instance's string", core.loc(n), instance=inst)
+            else:
+                c.ok(R, inst)
+    if n_w < 1:
+        raise core.AnchorMissing("binary serializer: the loop that writes SharedString::data into the SSTR chunk")
     assigner = None
     loop_node = None
     for f in fns:
